@@ -60,3 +60,24 @@ class SPI:
                     if f in self.kernels and f not in seen:
                         todo.append(f)
         return seen
+
+
+def threshold_rule(ob, spi):
+    """ob(rule, fn, role, ok, detail, stmt) - shared by C07 and C08."""
+    import ast
+    # the 90% test is made on the ratio itself: `1 - p0 < 0.1` is the same set of reals but not the same set of floats (1 - 0.9 < 0.1 in binary64)
+    k_gs = spi.k["gammastd"].node
+    thr = [n_ for n_ in ast.walk(k_gs) if isinstance(n_, ast.If) and any(isinstance(c_, ast.Constant) and c_.value in (0.9, 0.1) for c_ in ast.walk(n_.test))]
+    okf, detf = bool(thr), "no comparison against 0.9 found"
+    for n_ in thr:
+        t_ = n_.test
+        sides = [t_.left] + list(t_.comparators) if isinstance(t_, ast.Compare) else []
+        var_side = [x_ for x_ in sides if not isinstance(x_, ast.Constant)]
+        const_side = [x_ for x_ in sides if isinstance(x_, ast.Constant)]
+        plain = len(var_side) == 1 and len(const_side) == 1 and const_side[0].value == 0.9 and \
+            not any(isinstance(b_, ast.BinOp) and isinstance(b_.op, (ast.Add, ast.Sub)) for b_ in ast.walk(var_side[0]))
+        if not plain:
+            okf, detf = False, (f"`{ast.unparse(t_)}` compares a float-transformed quantity: the boundary case of exactly 90% zeros "
+                                f"(in-domain) falls on the other side (1 - 0.9 = 0.09999999999999998 < 0.1)")
+    ob("R-FORMULA", "gammastd", "the 90%-zeros test compares the ratio of counts itself with 0.9 (no float arithmetic on the compared side)", okf, detf if not okf else "",
+       thr[0].test if thr else "p_zero > 0.9")
